@@ -30,7 +30,7 @@ ANCHORS = [
     "acnportal.acnsim.events.event_queue:EventQueue._from_dict",
     "acnportal.acnsim.events.event:Event.__lt__",
 ]
-REQUIRED = ["histories_under_warnings_as_errors", "op:add_events_from_a_generator_failing_part_way", "fractional_timestamps_of_mixed_float_types", "ctor_events_as:generator", "ctor_events_as:iter", "bulk_queues_over_1000_pending", "returned_lists_mutated_by_the_client", "exhaustive_sequences", "random_ops", "json_round_trips", "op:get_event", "op:get_current_events",
+REQUIRED = ["histories_under_warnings_as_errors", "histories_with_user_events", "dumps_failing_part_way", "op:add_events_from_a_generator_failing_part_way", "fractional_timestamps_of_mixed_float_types", "ctor_events_as:generator", "ctor_events_as:iter", "bulk_queues_over_1000_pending", "returned_lists_mutated_by_the_client", "exhaustive_sequences", "random_ops", "json_round_trips", "op:get_event", "op:get_current_events",
             "op:add_events_bulk", "op:constructor_events", "ties_seen", "sim_runs_monitored", "sim_json_round_trips",
             "bulk_queues", "bulk_all_due_retrievals", "custom_precedence_round_trips", "queue_monitor:get_current_events", "queue_monitor:add", "queue_monitor:get_last_timestamp", "suite:queue_monitor:get_event"]
 BUDGET_S = {"quick": 240, "thorough": 3000}
@@ -76,6 +76,10 @@ class Ctx:
         self.evs = [EV(0, 10, 5.0, f"st{i}", f"sess{i}", Battery(50, 0, 7)) for i in range(12)]
 
     def make(self, kind, ts, evi=0):
+        if kind == "X":
+            return self.user_events()[0](ts)
+        if kind == "L":
+            return self.user_events()[1](ts, [5, 15, 25][evi % 3])
         if kind == "R":
             return self.cls["R"](ts)
         if kind == "E":
@@ -83,6 +87,32 @@ class Ctx:
         return self.cls[kind](ts, self.evs[evi % len(self.evs)])
 
 
+def _user_events(self):
+    """Two things a user may put into the queue: an Event subclass of their own whose serialisation fails (it holds a handle that
+    cannot be written), and an 'Event-like' object (the docstrings' word) that does not derive from Event at all: a timestamp, a
+    precedence between the library's own (5, 15 or 25) and an ordering by precedence."""
+    if not hasattr(self, "_ue"):
+        Event = self.Event
+
+        class Unserialisable(Event):
+            def _to_dict(self, context_dict=None):
+                raise RuntimeError("this event holds an open handle and cannot be serialised")
+
+        class EventLike:
+            event_type = "TariffChange"
+
+            def __init__(self, timestamp, precedence):
+                self.timestamp, self.precedence = timestamp, precedence
+                self.verif_rank = {5: 0.5, 15: 1.5, 25: 2.5}[precedence]
+
+            def __lt__(self, other):
+                return self.precedence < other.precedence
+
+        self._ue = (Unserialisable, EventLike)
+    return self._ue
+
+
+Ctx.user_events = _user_events
 _CTX = {}
 
 
@@ -96,6 +126,8 @@ def rank_of(ev):
     """Order required by the property: unplug, then plug-in, then recompute (base events last).
     Decided by the event's class, not by its own `precedence` attribute."""
     c = ctx()
+    if getattr(ev, "verif_rank", None) is not None:
+        return ev.verif_rank
     for r, k in enumerate("UPR"):
         if isinstance(ev, c.cls[k]):
             return r
@@ -299,6 +331,11 @@ def _run_rand_body(case, obs, c, rng, nts, fl, ts_, m, hist, init, strict):
         obs.ev("calls_that_raised_a_warning_as_error")
         hist.append([what + " raised " + type(e_).__name__])
 
+    # every sixth history (integer timestamps) also holds user events: a subclass whose serialisation fails, Event-like objects
+    user_ok = (case["seed"] % 6 == 2) and not fl
+    if user_ok:
+        obs.ev("histories_with_user_events")
+
     if rng.random() < 0.5:
         init = [c.make(rng.choice("UPRE"), ts_(), rng.randrange(12)) for _ in range(rng.randint(1, 8))]
         # the constructor's events come as a list, a tuple, or a one-shot iterable (generator, map, iterator)
@@ -322,7 +359,7 @@ def _run_rand_body(case, obs, c, rng, nts, fl, ts_, m, hist, init, strict):
                 ev = rng.choice(pool)  # the same event object again
                 obs.ev("duplicate_object_added")
             else:
-                ev = c.make(rng.choice("UPRE"), ts_(), rng.randrange(12))
+                ev = c.make(rng.choice("UPRE" if not user_ok else "UPREXLL"), ts_(), rng.randrange(12))
                 pool.append(ev)
             n0 = len(q)
             try:
@@ -404,6 +441,17 @@ def _run_rand_body(case, obs, c, rng, nts, fl, ts_, m, hist, init, strict):
                 if not strict:
                     raise
                 refused("get_current_events", e_)
+        elif any(type(e_).__name__ in ("Unserialisable", "EventLike") for _t, e_ in q.queue):
+            # the dump fails part-way at an event that cannot be written; the caller catches the error and keeps using the queue,
+            # which must be what it was (judged by the queries below and by every later retrieval)
+            try:
+                with warnings.catch_warnings():
+                    warnings.simplefilter("ignore")
+                    q.to_json()
+                obs.ev("dump_with_unwritable_event_succeeded_not_judged")
+            except Exception:
+                obs.ev("dumps_failing_part_way")
+            hist.append(["json_failing"])
         else:
             with warnings.catch_warnings():
                 warnings.simplefilter("ignore")
